@@ -206,6 +206,13 @@ pub fn run(opts: &Opts) -> Report {
                     let _ = w.store.annotate(AnnotationBuilder::new().with_target(SelectorBuilder::textselector("r", Offset::simple(b, e))));
                 }
                 check_all(&mut rep, &w, &cfgname, "annotated", n <= 4);
+                // the configuration of a live store is replaced (Configurable::set_config): the indices were built under
+                // the old settings, the answers must not change
+                if (ti + ci) % 2 == 0 {
+                    let iv2 = intervals[(ci + 1 + ti % 4) % intervals.len()];
+                    w.store.set_config(Config::default().with_milestone_interval(iv2).with_shrink_to_fit(!shrink));
+                    check_all(&mut rep, &w, &format!("{}->m{}s{}", cfgname, iv2, !shrink as u8), "reconfigured", false);
+                }
             }
         }
     }
